@@ -408,7 +408,7 @@ func ruleSemGate(e *Env, rule, numRule string) {
 		if fn == nil {
 			continue
 		}
-		ev := &pred.Evaluator{Prog: e.P.SSA, Oracle: noOracle{}, Summaries: sums}
+		ev := &pred.Evaluator{Prog: e.P.SSA, GlobalInit: e.globalTables(), Oracle: noOracle{}, Summaries: sums}
 		out, err := ev.Eval(fn, []pred.Val{pred.Sym{Name: "input"}})
 		wantS := fmt.Sprintf("(unmarshalText#0(input,%s), unmarshalText#1(input,%s))", en.want, en.want)
 		switch {
